@@ -88,37 +88,30 @@ let () =
              messages of that sender also pass that session's own receive window; after an `a`
              message every session is gone again. *)
           if not spec_mode then begin
-            let st = ref gstore_new in
-            let live : (string * rx) list ref = ref [] in
+            (* the extracted receive path (Model/DedupRx.v): store + ephemeral sessions *)
+            let st = ref grx_new in
             let flags = Buffer.create 16 in
             List.iter (fun op ->
               match String.split_on_char ':' op with
               | [k; n; c] when k = "a" || k = "A" || k = "b" || k = "B" ->
-                  (* b / B: addressed to the second group (258) mapped to the same key set; a session
-                     stands for one group, the sender table is per sender *)
-                  let key = n ^ "/" ^ (if k = "b" || k = "B" then "258" else "257") in
-                  let (st', a) = g_post_recv !st (n_of_int 1) (n_of_string n) (n_of_string c) in
+                  (* b / B: addressed to the second group (258) mapped to the same key set *)
+                  let group = n_of_int (if k = "b" || k = "B" then 258 else 257) in
+                  let keep = (k = "A" || k = "B") in
+                  let (st', a) = grx_recv !st (n_of_int 1) (n_of_string n) group (n_of_string c) keep in
                   st := st';
-                  let acc =
-                    if not a then false
-                    else begin
-                      let w = (match List.assoc_opt key !live with Some w -> w | None -> rx_unsynced) in
-                      let (w', a2) = post_recv w (n_of_string c) true false in
-                      live := (key, w') :: List.remove_assoc key !live;
-                      a2
-                    end in
-                  Buffer.add_char flags (if acc then '1' else '0');
-                  if k = "a" || k = "b" then live := []
+                  Buffer.add_char flags (if a then '1' else '0')
               | [_; _; _] -> Buffer.add_char flags 'x'
               | _ -> failwith "bad Y op") (split_on ',' ops);
+            let store = !st.gx_store in
             let ents = List.map (fun e ->
               Printf.sprintf "%s:%s:%s:%s:%s" (string_of_n e.g_fab) (string_of_n e.g_node)
                 (string_of_n e.g_rx.max_ctr) (string_of_n e.g_rx.bitmap) (string_of_n e.g_last))
-              !st.g_entries in
+              store.g_entries in
             let ents = List.sort compare ents in
+            let live = List.map (fun ((n, g), _) -> string_of_n n ^ "/" ^ string_of_n g) !st.gx_live in
             Printf.printf "Y %s %s %s %s live=%s\n" id (Buffer.contents flags)
-              (string_of_n !st.g_clock) (String.concat ";" ents)
-              (String.concat "," (List.sort compare (List.map fst !live)))
+              (string_of_n store.g_clock) (String.concat ";" ents)
+              (String.concat "," (List.sort compare live))
           end
       | ["G"; id; ops] ->
           if not spec_mode then begin
